@@ -52,14 +52,16 @@ Definition family_A : list case :=
   flat_map (fun k => flat_map (fun KD => mk (lit "run ") (lit " ok") (lit "***") KD
                                             (fixed_values [[97]; [233; 94]])) (casings k)) spec_keys_35.
 (* B: one key, every rendering, every class representative at length 1 and inside length-2 values *)
+Definition rep_values2h (reps : list N) (cls : N -> bool) : list str := map (fun c => [c; 97]) (filter cls reps).
 Definition family_B : list case :=
   mk [] [] (lit "?") (lit "password") (rep_values1 reps_all) ++
-  mk (lit "a ") (lit " z") (lit "***") (lit "auth_password") (rep_values2 reps_templates).
+  mk (lit "a ") (lit " z") (lit "***") (lit "auth_password") (rep_values2h reps_templates).
 (* C: every key x every rendering x contexts x masks *)
-Definition contexts : list (str * str) := [([], []); (lit "run ", lit " ok"); ([97; 10], [9; 122; 32; 49])].
+Definition contexts : list ((str * str) * str) :=
+  [(([], []), lit "?"); ((lit "run ", lit " ok"), lit "***"); (([97; 10], [9; 122; 32; 49]), lit "***")].
 Definition family_C : list case :=
-  flat_map (fun k => flat_map (fun ctx : str * str => flat_map (fun mask =>
-     mk (fst ctx) (snd ctx) mask k (fixed_values [lit "s3cret"])) [lit "***"; lit "?"]) contexts) spec_keys_35.
+  flat_map (fun k => flat_map (fun cm : (str * str) * str =>
+     mk (fst (fst cm)) (snd (fst cm)) (snd cm) k (fixed_values [lit "s3cret"])) contexts) spec_keys_35.
 
 Definition family_quick : list case := family_A ++ family_B ++ family_C.
 
@@ -81,4 +83,7 @@ Definition family_thorough : list case :=
      mk (lit "run ") (lit " ok") (lit "***") KD (rep_values1 reps_templates)) (casings k)) spec_keys_35 ++
   flat_map (fun k => flat_map (fun KD =>
      mk (lit "a ") (lit " z") (lit "?") KD (fun cls => rep_values2 reps_templates cls ++ rep_values3 reps_templates cls))
-     (casings k)) [lit "password"; lit "auth_password"; lit "token"; lit "cephclusterfsid"; lit "chapsecret"].
+     (casings k)) [lit "password"; lit "auth_password"; lit "token"; lit "cephclusterfsid"; lit "chapsecret"] ++
+  flat_map (fun k => flat_map (fun mask => flat_map (fun ctx : str * str =>
+     mk (fst ctx) (snd ctx) mask k (fixed_values [lit "s3cret"])) [([], []); (lit "run ", lit " ok"); ([97; 10], [9; 122; 32; 49])])
+     [lit "***"; lit "?"]) spec_keys_35.
